@@ -980,27 +980,75 @@ def systematic(W, rng, thorough):
 # candidates: forms the compiler accepts whose emitted operation is not the documented one (isolated so that they do not
 # mask anything else); each is one design
 # ----------------------------------------------------------------------------
+def regression(W):
+    """fixed regression corpus (runs first): the forms whose defects were found by this check and repaired in /repo -
+    unary minus on Unsigned (825f8bb), a negative int next to an Unsigned in + - and comparisons (3a94e11), a run-time index
+    that is itself computed, for vectors and arrays, concurrent and clocked (6279104)"""
+    out = []
+    for w in (1, 3):
+        U = ("u", w)
+        a = lambda: P(f"a{w}", U)
+        x = a()
+        out.append(("reg", Node(U, f"(-{x.py})", f"(XUn NNeg {x.cq})", [x], tag=f"neg:u{w}", key="neg:u")))
+        x, y = a(), P(f"b{w}", U)
+        ng = Node(U, f"(-{x.py})", f"(XUn NNeg {x.cq})", [x], tag=f"neg:u{w}", key="neg:u")
+        out.append(("reg", Node(U, f"({ng.py} + {y.py})", f"(XBin BAdd {ng.cq} {y.cq})", [ng, y], tag=f"add:u{w},u{w}", key="add:u,u")))
+        for z in (-1, -2, -(1 << w)):
+            for nm, sym, B in (("add", "+", "BAdd"), ("sub", "-", "BSub")):
+                for left in (False, True):
+                    x, i = a(), int_lit(z)
+                    l, r_ = (i, x) if left else (x, i)
+                    out.append(("reg", Node(U, f"({l.py} {sym} {r_.py})", f"(XBin {B} {l.cq} {r_.cq})", [l, r_],
+                                            tag=f"{nm}:" + (f"negint,u{w}" if left else f"u{w},negint"), key=f"{nm}:u,negative_int")))
+            for sym, C in Gen.CMPS:
+                for left in (False, True):
+                    x, i = a(), int_lit(z)
+                    l, r_ = (i, x) if left else (x, i)
+                    out.append(("reg", Node(("bool", 1), f"({l.py} {sym} {r_.py})", f"(XCmp {C} {l.cq} {r_.cq})", [l, r_],
+                                            tag=f"{C[1:].lower()}:" + (f"negint,u{w}" if left else f"u{w},negint"), key="cmp:u,negative_int")))
+    # computed run-time index: vectors of every kind, an array; the index stays in range (>> 1) or may leave it (+ 1: clocked)
+    for k, nm in (("u", "a"), ("s", "s"), ("bv", "v")):
+        for form, cqf, risky in (("({} >> 1)", "(XBin BShr {} (XConst KInt 0%N 1%Z))", False), ("({} + 1)", "(XBin BAdd {} (XConst KInt 0%N 1%Z))", True)):
+            v, b = P(f"{nm}3", (k, 3)), P("b2", ("u", 2))
+            idx = Node(("u", 2), form.format(b.py), cqf.format(b.cq), [b, int_lit(1)], tag="index_expr", key="index_expr")
+            nd = Node(("bit", 1), f"{v.py}[{idx.py}]", f"(XIdx {v.cq} {idx.cq})", [v, idx], tag=f"index:{k}3[computed u2]", key="index_runtime:computed_index",
+                      dims={"runtime_index"})
+            nd.risk = risky
+            out.append(("reg", nd))
+            if not risky:
+                v, b = P(f"{nm}3", (k, 3)), P("b2", ("u", 2))
+                idx = Node(("u", 2), form.format(b.py), cqf.format(b.cq), [b, int_lit(1)], tag="index_expr", key="index_expr")
+                nd = Node(("bit", 1), f"{v.py}[{idx.py}]", f"(XIdx {v.cq} {idx.cq})", [v, idx], tag=f"index:{k}3[computed u2]/clocked", key="index_runtime:computed_index",
+                          dims={"runtime_index", "force_clocked"})
+                out.append(("reg", nd))
+    U = ("u", 3)
+    for clocked in (False, True):
+        b = P("b2", ("u", 2))
+        idx = Node(("u", 2), f"({b.py} >> 1)", f"(XBin BShr {b.cq} (XConst KInt 0%N 1%Z))", [b, int_lit(1)], tag="index_expr", key="index_expr")
+        e0, e1 = P("a3", U), P("a3", U)
+        e1 = Node(U, f"(~{e1.py})", f"(XUn NInv {e1.cq})", [e1], tag="invert:u3", key="invert:u")
+        name = "arrk" if clocked else "arrc"
+        out.append(("reg", Node(U, f"{name}[{idx.py}]", f"(XIdx (XArr [{e0.cq}; {e1.cq}]) {idx.cq})", [e0, e1, idx], tag="array_read:computed_index", key="array_read:computed_index",
+                                pre=[(name, pyty(U), 2, (e0.py, e1.py))], dims={"array"} | ({"force_clocked"} if clocked else set()))))
+    return out
+
+
 def candidates(W):
+    """forms the compiler accepts (or rejects) against the documented semantics; each carries the CLASS under which a violation
+    is reported (operand details are in the replay)"""
     out = []
     w = 3 if 3 in W else W[-1]
     U, S = ("u", w), ("s", w)
     a = lambda: P(f"a{w}", U)
     s = lambda: P(f"s{w}", S)
-    x = a()
-    out.append(Node(U, f"(-{x.py})", f"(XUn NNeg {x.cq})", [x], tag=f"neg:u{w}", key="neg:u"))
-    for nm, sym, B, rw in (("add", "+", "BAdd", w), ("sub", "-", "BSub", w)):
-        x, i = a(), int_lit(-1)
-        out.append(Node((("u", rw)), f"({x.py} {sym} {i.py})", f"(XBin {B} {x.cq} {i.cq})", [x, i], tag=f"{nm}:u{w},negint", key=f"{nm}:u,negative_int"))
-    x, i = a(), int_lit(-1)
-    out.append(Node(("bool", 1), f"({x.py} < {i.py})", f"(XCmp CLt {x.cq} {i.cq})", [x, i], tag=f"lt:u{w},negint", key="cmp:u,negative_int"))
     big = (1 << w) + 1
     for left in (False, True):
         x, i = a(), int_lit(big)
         l, r_ = (i, x) if left else (x, i)
-        out.append(Node(("u", 2 * w), f"({l.py} * {r_.py})", f"(XBin BMul {l.cq} {r_.cq})", [l, r_], tag=f"mul:u{w},bigint", key="mul:u,int_out_of_range"))
+        out.append(Node(("u", 2 * w), f"({l.py} * {r_.py})", f"(XBin BMul {l.cq} {r_.cq})", [l, r_], tag=f"mul:u{w},bigint", key="mul:u,int_out_of_range", dims={"class:mul_int_factor_out_of_vector_range"}))
         x, i = s(), int_lit(big)
         l, r_ = (i, x) if left else (x, i)
-        out.append(Node(("s", 2 * w), f"({l.py} * {r_.py})", f"(XBin BMul {l.cq} {r_.cq})", [l, r_], tag=f"mul:s{w},bigint", key="mul:s,int_out_of_range"))
+        out.append(Node(("s", 2 * w), f"({l.py} * {r_.py})", f"(XBin BMul {l.cq} {r_.cq})", [l, r_], tag=f"mul:s{w},bigint", key="mul:s,int_out_of_range", dims={"class:mul_int_factor_out_of_vector_range"}))
     x, i = a(), int_lit(big)
     out.append(Node(U, f"({x.py} + {i.py})", f"(XBin BAdd {x.cq} {i.cq})", [x, i], tag=f"add:u{w},bigint", key="add:u,int_out_of_range"))
     x, i = s(), int_lit(big)
@@ -1021,7 +1069,7 @@ def candidates(W):
         l, r_ = (x, y) if first_narrow else (y, x)
         ite2 = Node(U, f"({l.py} if {c.py} else {r_.py})", f"(XIte {c.cq} {l.cq} {r_.cq})", [c, l, r_], tag=f"ite:bit?{tname(l.ty)}:{tname(r_.ty)}", key="ite:u(mixed_width)")
         one = int_lit(1)
-        out.append(Node(U, f"({ite2.py} + {one.py})", f"(XBin BAdd {ite2.cq} {one.cq})", [ite2, one], tag="add:ite(mixed_width),int", key="operand:ite(mixed_width)", dims={"promised"}))
+        out.append(Node(U, f"({ite2.py} + {one.py})", f"(XBin BAdd {ite2.cq} {one.cq})", [ite2, one], tag="add:ite(mixed_width),int", key="operand:ite(mixed_width)", dims={"promised", "class:mixed_width_merge_as_operand"}))
     c, x, y = P("x", ("bit", 1)), P(f"b{wn}", ("u", wn)), a()
     sel = Node(U, f"cohdl.select_with({c.py}, {{Bit(False): {y.py}, Bit(True): {x.py}}})", f"(XSel {c.cq} [(0%Z, {y.cq}); (1%Z, {x.cq})] None)", [c, y, x],
                tag="select_with:bit->u(mixed_width)", key="select_with:u(mixed_width)")
@@ -1029,18 +1077,7 @@ def candidates(W):
     c, x, y = P("x", ("bit", 1)), P(f"b{wn}", ("u", wn)), a()
     sel2 = Node(U, f"cohdl.select_with({c.py}, {{Bit(False): {y.py}, Bit(True): {x.py}}})", f"(XSel {c.cq} [(0%Z, {y.cq}); (1%Z, {x.cq})] None)", [c, y, x],
                 tag="select_with:bit->u(mixed_width)", key="select_with:u(mixed_width)")
-    out.append(Node(("bv", w), f"(~{sel2.py}).bitvector", f"(XView VwBV (XUn NInv {sel2.cq}))", [sel2], tag="invert:select(mixed_width)", key="operand:select_with(mixed_width)", dims={"promised"}))
-    # a run-time index that is itself computed by an operator
-    i2 = 2 if 2 in W else W[0]
-    v, b = a(), P(f"b{i2}", ("u", i2))
-    idx = Node(("u", i2), f"({b.py} >> 1)", f"(XBin BShr {b.cq} (XConst KInt 0%N 1%Z))", [b, int_lit(1)], tag=f"shr:u{i2},int", key="shr:u,int")
-    out.append(Node(("bit", 1), f"{v.py}[{idx.py}]", f"(XIdx {v.cq} {idx.cq})", [v, idx], tag=f"index:u{w}[computed u{i2}]", key="index_runtime:computed_index", dims={"promised"}))
-    b = P(f"b{i2}", ("u", i2))
-    idx = Node(("u", i2), f"({b.py} >> 1)", f"(XBin BShr {b.cq} (XConst KInt 0%N 1%Z))", [b, int_lit(1)], tag=f"shr:u{i2},int", key="shr:u,int")
-    e0, e1 = a(), a()
-    e1 = Node(U, f"(~{e1.py})", f"(XUn NInv {e1.cq})", [e1], tag=f"invert:u{w}", key="invert:u")
-    out.append(Node(U, f"arrc[{idx.py}]", f"(XIdx (XArr [{e0.cq}; {e1.cq}]) {idx.cq})", [e0, e1, idx], tag="array_read:computed_index", key="array_read:computed_index",
-                    pre=[("arrc", pyty(U), 2, (e0.py, e1.py))], dims={"promised"}))
+    out.append(Node(("bv", w), f"(~{sel2.py}).bitvector", f"(XView VwBV (XUn NInv {sel2.cq}))", [sel2], tag="invert:select(mixed_width)", key="operand:select_with(mixed_width)", dims={"promised", "class:mixed_width_merge_as_operand"}))
     return out
 
 
@@ -1306,6 +1343,19 @@ def run(ck: common.Check, replay=None):
         singles_only = True
     else:
         singles_only = False
+        # the fixed regression corpus runs first, on its own
+        regs = []
+        for j, (g, ns) in enumerate(bundle(regression(W), rng, wide)):
+            conc = [n for n in ns if "force_clocked" not in n.dims and not n.risk]
+            clk = [n for n in ns if "force_clocked" in n.dims or n.risk]
+            if conc:
+                regs.append(Design(f"reg{j:03d}", conc, False))
+            if clk:
+                regs.append(Design(f"reg{j:03d}c", clk, True))
+        if not os.environ.get("C02_PHASES") or "reg" in os.environ.get("C02_PHASES", ""):
+            run_designs(ck, regs, wide)
+        ck.cov["regression_designs"] = len(regs)
+        ck.cov["regression_expressions"] = sum(len(d.nodes) for d in regs)
         sysW = W if not thorough else [1, 2, 3, 4]
         k = 0
         for g, ns in bundle(systematic(sysW, rng, thorough), rng, wide):
@@ -1417,6 +1467,14 @@ def alpha_bits(ports, wide):
     return b
 
 
+def vkey(n, outcome):
+    """violation key: ONE class per defect (a known-finding entry {"class": ...} covers exactly it)"""
+    for dm in sorted(n.dims):
+        if dm.startswith("class:"):
+            return {"class": dm[6:]}
+    return {"class": f"{n.key}/{outcome}"}
+
+
 def node_meta(n, clocked):
     return {"ty": list(n.ty), "py": n.py, "cq": n.cq, "ports": {k: list(v) for k, v in n.ports.items()}, "cons": {k: list(v) for k, v in n.cons.items()},
             "pre": [list(x) for x in n.pre], "tag": n.tag, "key": n.key, "clocked": clocked}
@@ -1451,10 +1509,11 @@ def run_designs(ck, designs, wide, singles_only=False):
                 if (n.key, "rej") not in seen_fail and PROMISED_REJECT.match(n.key) and (not any(k.kids for k in n.kids) or "promised" in n.dims):
                     seen_fail.add((n.key, "rej"))
                     ck.obligation(False)
-                    ck.violation({"op": n.key, "outcome": "rejected"},
+                    ck.violation(vkey(n, "rejected"),
                                  "a well-typed expression over supported operators / operand types is rejected at compile time: "
                                  + f"{n.py} : {tname(n.ty)} ({r.get('error_type')}: {r['error'][:120]})",
-                                 {"meta": node_meta(n, d.clocked), "source": d.source(), "error": r["error"], "trace": r.get("trace")}, no_input=True)
+                                 {"meta": node_meta(n, d.clocked), "source": d.source(), "expr": n.py, "type": tname(n.ty), "op": n.key, "outcome": "rejected",
+                                  "error": r["error"], "trace": r.get("trace")})
                 continue
             cases.append(make_case(ck, d, r["vhdl"], wide))
         results = prove(ck, cases)
@@ -1520,9 +1579,9 @@ def report(ck, c, st, info):
     d = c.design_obj
     n = d.nodes[0]
     ck.obligation(False)
-    rep = {"case": c.name, "meta": node_meta(n, d.clocked), "source": d.source(), "vhdl": c.vhdl, "case_file": c.path, "expr": n.py, "type": tname(n.ty)}
+    rep = {"case": c.name, "meta": node_meta(n, d.clocked), "source": d.source(), "vhdl": c.vhdl, "case_file": c.path, "expr": n.py, "type": tname(n.ty), "op": n.key}
     if st == "unparsed":
-        ck.violation({"op": n.key, "outcome": "unparsed"}, "emitted VHDL left the parsed subset: " + info.get("log", ""), rep, no_input=True)
+        ck.violation(vkey(n, "unparsed"), "emitted VHDL left the parsed subset: " + info.get("log", ""), rep, no_input=True)
         return
     st2 = info.get("diag", "error")
     info2 = {k: v for k, v in info.items() if k != "diag"}
@@ -1538,9 +1597,9 @@ def report(ck, c, st, info):
                     "EWidth": "the emitted text assigns vectors of different length",
                     "ERange": "the emitted operation violates a range constraint of numeric_std (natural / index) for a value the documented semantics defines",
                     "EDivZero": "division by zero outside the excluded valuations"}.get(kind, "the emitted design fails at run time: " + kind)
-            ck.violation({"op": n.key, "outcome": kind}, f"{n.py} : {tname(n.ty)} - {what}", rep)
+            ck.violation(vkey(n, kind), f"{n.py} : {tname(n.ty)} - {what}", rep)
         else:
-            ck.violation({"op": n.key, "outcome": "wrong_value"},
+            ck.violation(vkey(n, "wrong_value"),
                          f"{n.py} : {tname(n.ty)} - emitted logic and documented value differ on an operand valuation", rep)
     else:
-        ck.violation({"op": n.key, "outcome": st2}, "case obligation not discharged (%s)" % st2, rep, no_input=True)
+        ck.violation(vkey(n, st2), "case obligation not discharged (%s)" % st2, rep, no_input=True)
